@@ -30,11 +30,13 @@ Theorem C08_normal_left_unit :
   forall (U V P : Type) (zeroV : V) n (s : seqv U V P) ks u,
     rrun zeroV (S (S (S n))) (SCombine (SOfK KNormal) s) ks u = rrun zeroV n s ks u.
 Proof. exact combine_normal_l. Qed.
+Print Assumptions C08_normal_left_unit.
 
 Theorem C08_signals_skip_rest_of_combine :
   forall (U V P : Type) (zeroV : V) n t (s : seqv U V P) ks u, t <> KNormal ->
     rrun zeroV (S (S (S n))) (SCombine (SOfK t) s) ks u = rsig zeroV n t zeroV ks u.
 Proof. exact combine_skip. Qed.
+Print Assumptions C08_signals_skip_rest_of_combine.
 
 Theorem C08_no_post_before_first_iteration :
   forall (U V P : Type) (zeroV : V) n c p (b : seqv U V P) ks u,
@@ -47,6 +49,7 @@ Theorem C08_no_post_before_first_iteration :
       | Some Stuck => Some RStuck
       end.
 Proof. exact for_first_iteration. Qed.
+Print Assumptions C08_no_post_before_first_iteration.
 
 Theorem C08_post_after_normal_and_continue :
   forall (U V P : Type) (zeroV : V) n t v c p (b : seqv U V P) ks u,
@@ -66,13 +69,16 @@ Theorem C08_post_after_normal_and_continue :
           end
       end.
 Proof. exact loop_next_iteration. Qed.
+Print Assumptions C08_post_after_normal_and_continue.
 
 Theorem C08_break_becomes_normal_outside_loop :
   forall (U V P : Type) (zeroV : V) n v c p (b : seqv U V P) ks u,
     rsig zeroV (S n) KBreak v (KLoop c p b :: ks) u = rsig zeroV n KNormal zeroV ks u.
 Proof. exact loop_break. Qed.
+Print Assumptions C08_break_becomes_normal_outside_loop.
 
 Theorem C08_return_carries_value :
   forall (U V P : Type) (zeroV : V) n v c p (b : seqv U V P) ks u,
     rsig zeroV (S n) KReturn v (KLoop c p b :: ks) u = rsig zeroV n KReturn v ks u.
 Proof. exact loop_return. Qed.
+Print Assumptions C08_return_carries_value.
